@@ -94,10 +94,10 @@ def run(ctx):
     cc = getattr(fb.Taylor, '_check_convergence', None)
     worst = 0.0
     loop_jobs = []
-    for it in range(ctx.budget(120, 1500) * (2 if (ctx.broken or ctx.mismatches) else 1)):
+    for it in range(ctx.budget(200, 2000) * (2 if (ctx.broken or ctx.mismatches) else 1)):
         name, f, series, dist = family(rng)
         z0 = complex(rng.uniform(0, 1), rng.uniform(0, 1)) if rng.random() < 0.5 else rng.uniform(0, 1)
-        n = rng.choice([1, 2, 5, 6, 10, 13, 20, 27, 40, 60, 100])
+        n = rng.choice([1, 2, 5, 6, 10, 13, 20, 27, 40, 40, 60, 60, 75, 100, 100])
         default_r = rng.random() < 0.4
         r = 0.0059 if default_r else 10 ** rng.uniform(-5, 0)
         ratio, ne = rng.uniform(1.2, 3), rng.randint(1, 5)
